@@ -14,6 +14,7 @@ package main
 
 import (
 	"bufio"
+	"errors"
 	"bytes"
 	"compress/gzip"
 	"context"
@@ -152,20 +153,91 @@ func (f *fixedTime) ProcessDocuments(ctx context.Context, rt time.Time, rn func(
 type chunkReader struct {
 	b     []byte
 	n     int
-	eager bool // report io.EOF together with the last bytes (as e.g. a gzip reader does)
+	eager bool  // report the final error together with the last bytes (as e.g. a gzip reader does)
+	end   error // nil = io.EOF; otherwise the (sticky) error the stream breaks with
+	// blockAt >= 0: before delivering byte number blockAt the reader signals hold.entered and
+	// waits for hold.release (once)
+	blockAt int
+	pos     int
+	hold    *holdCtl
+}
+
+type timeoutErr struct{}
+
+func (timeoutErr) Error() string   { return "i/o timeout" }
+func (timeoutErr) Timeout() bool   { return true }
+func (timeoutErr) Temporary() bool { return true }
+
+func faultErr(kind string) error {
+	switch kind {
+	case "unexpected-eof":
+		return io.ErrUnexpectedEOF
+	case "generic":
+		return errors.New("read tcp 10.0.0.1:9002->10.0.0.2:51234: read: connection reset by peer")
+	case "timeout":
+		return timeoutErr{}
+	}
+	return nil
 }
 
 func (c *chunkReader) Read(p []byte) (int, error) {
+	end := c.end
+	if end == nil {
+		end = io.EOF
+	}
+	if c.hold != nil && c.pos == c.blockAt {
+		h := c.hold
+		c.hold = nil
+		close(h.entered)
+		<-h.release
+	}
 	if len(c.b) == 0 {
-		return 0, io.EOF
+		return 0, end
 	}
 	k := min(c.n, len(p), len(c.b))
+	if c.hold != nil && c.pos < c.blockAt {
+		k = min(k, c.blockAt-c.pos)
+	}
 	copy(p, c.b[:k])
 	c.b = c.b[k:]
+	c.pos += k
 	if c.eager && len(c.b) == 0 {
-		return k, io.EOF
+		return k, end
 	}
 	return k, nil
+}
+
+// the bytes on the wire and the wire offsets after 0, 1, 2 .. lines of the body
+func wireBytes(rq *request) ([]byte, []int) {
+	lines := bytes.SplitAfter(rq.body, []byte{'\n'})
+	if n := len(lines); n > 0 && len(lines[n-1]) == 0 {
+		lines = lines[:n-1]
+	}
+	if !rq.Gzip {
+		offs := []int{0}
+		for _, l := range lines {
+			offs = append(offs, offs[len(offs)-1]+len(l))
+		}
+		return rq.body, offs
+	}
+	var zb bytes.Buffer
+	zw := gzip.NewWriter(&zb)
+	if !rq.FlushLines && rq.Fault == "" {
+		zw.Write(rq.body)
+		zw.Close()
+		return zb.Bytes(), nil
+	}
+	zw.Flush()
+	offs := []int{zb.Len()}
+	for _, l := range lines {
+		zw.Write(l)
+		zw.Flush()
+		offs = append(offs, zb.Len())
+	}
+	if rq.Fault == "" {
+		zw.Close()
+	}
+	return zb.Bytes(), offs
 }
 
 // ---------------------------------------------------------------- configuration of a worker
@@ -225,7 +297,16 @@ type request struct {
 	Gzip     bool      `json:"gzip"`
 	Chunk    int       `json:"chunk"`
 	Eager    bool      `json:"eager_eof"`
-	BodyHex  string    `json:"body_hex"`
+	// Fault: the body reader ends with this error instead of io.EOF after delivering the body
+	// ("unexpected-eof" | "generic" | "timeout"); for gzip the compressed stream is written with a
+	// flush after every line and after the last byte, and has no trailer
+	Fault string `json:"fault,omitempty"`
+	// FlushLines: gzip stream flushed after every line (needed to block mid-body at a line)
+	FlushLines bool `json:"flush_lines,omitempty"`
+	// BlockAfter: in a history, the body reader blocks after this many lines (0 = before the
+	// first line, for gzip after the header) until the history releases it; -1 = never
+	BlockAfter int    `json:"block_after"`
+	BodyHex    string `json:"body_hex"`
 	BodyText string    `json:"body_text"`
 	Docs     []docMeta `json:"docs,omitempty"`
 	Class    string    `json:"class"`
@@ -287,28 +368,34 @@ func newEnvN(maxDoc, inflight int) *env {
 	return e
 }
 
-func (e *env) serve(rq *request, emit func(record)) *observation { return e.serveHold(rq, emit, nil) }
+func (e *env) serve(rq *request, emit func(record)) *observation {
+	return e.serveHold(rq, emit, nil, nil)
+}
 
-func (e *env) serveHold(rq *request, emit func(record), hold *holdCtl) *observation {
+// hold: block inside StoreDocuments; bodyHold: block inside the body reader (rq.BlockAfter lines)
+func (e *env) serveHold(rq *request, emit func(record), hold, bodyHold *holdCtl) *observation {
 	rec := &recorder{hold: hold}
 	ft := &fixedTime{ing: e.ings[rq.Cfg], t: time.Unix(0, rq.NowNs).UTC(), rec: rec}
 	h := proxyapi.NewBulkHandler(ft, e.maxDoc)
 	var rd io.Reader
-	raw := rq.body
+	raw, offs := wireBytes(rq)
 	hdr := ""
 	if rq.Gzip {
-		var zb bytes.Buffer
-		zw := gzip.NewWriter(&zb)
-		zw.Write(raw)
-		zw.Close()
-		raw = zb.Bytes()
 		hdr = "gzip"
 	}
 	ch := rq.Chunk
 	if ch <= 0 {
 		ch = len(raw) + 1
 	}
-	rd = &chunkReader{b: raw, n: ch, eager: rq.Eager && !rq.Gzip}
+	cr := &chunkReader{b: raw, n: ch, eager: rq.Eager && !rq.Gzip, end: faultErr(rq.Fault), blockAt: -1}
+	if rq.Fault != "" && rq.Gzip && rq.Fault == "unexpected-eof" {
+		cr.end = nil // the cut gzip stream simply ends: the gzip reader reports io.ErrUnexpectedEOF itself
+	}
+	if bodyHold != nil && rq.BlockAfter >= 0 && rq.BlockAfter < len(offs) {
+		cr.blockAt = offs[rq.BlockAfter]
+		cr.hold = bodyHold
+	}
+	rd = cr
 	hr := httptest.NewRequest(http.MethodPost, "/_bulk", rd)
 	if hdr != "" {
 		hr.Header.Set("Content-Encoding", hdr)
@@ -536,8 +623,8 @@ func caseTerm(e *env, rq *request, o *observation, table string) string {
 	for _, s := range o.stored {
 		st = append(st, fmt.Sprintf("(%s, ((%d)%%Z, %d))", hxb(s.doc), s.mid, s.size))
 	}
-	return fmt.Sprintf("CBulk %s %d (%d)%%Z (%d)%%Z (%d)%%Z %s %s (Build_impl %s %d %d %d [%s] %s)",
-		casefile.Bool(rq.Eager), e.B, rq.NowNs, int64(c.drift), int64(c.fdrift), hxb(rq.body), table,
+	return fmt.Sprintf("CBulk %s %s %d (%d)%%Z (%d)%%Z (%d)%%Z %s %s (Build_impl %s %d %d %d [%s] %s)",
+		casefile.Bool(rq.Fault != ""), casefile.Bool(rq.Eager), e.B, rq.NowNs, int64(c.drift), int64(c.fdrift), hxb(rq.body), table,
 		casefile.Bool(o.Status/100 == 2), o.Created, o.Calls, o.Total, strings.Join(st, "; "), hxb(o.payload))
 }
 
@@ -1137,7 +1224,11 @@ func newHistory(e *env, r *rng.R) []histItem {
 	for k := r.Intn(3); k > 0; k-- {
 		roles = append(roles, "empty")
 	}
-	roles = append(roles, "held")
+	heldRole := "held"
+	if r.Bool() {
+		heldRole = "held-body" // blocked inside its body reader instead of inside the store
+	}
+	roles = append(roles, heldRole)
 	for k := r.Range(1, 3); k > 0; k-- {
 		roles = append(roles, "during")
 	}
@@ -1146,14 +1237,27 @@ func newHistory(e *env, r *rng.R) []histItem {
 	}
 	var h []histItem
 	for _, role := range roles {
-		kind := map[string]string{"empty": "empty", "held": "big"}[role]
+		kind := map[string]string{"empty": "empty", "held": "big", "held-body": "big"}[role]
 		if role == "after" && r.Chance(1, 3) {
 			kind = "empty"
 		}
 		body := g.plainBody(kind)
 		now := baseNow.Add(time.Duration(r.Intn(3600_000)) * time.Millisecond)
-		h = append(h, histItem{role, &request{MaxDoc: e.maxDoc, Cfg: cfg, NowNs: now.UnixNano(), BodyHex: hex.EncodeToString(body),
-			BodyText: fmt.Sprintf("%q", body), Class: "overlap-history", body: body}})
+		rq := &request{MaxDoc: e.maxDoc, Cfg: cfg, NowNs: now.UnixNano(), BodyHex: hex.EncodeToString(body),
+			BodyText: fmt.Sprintf("%q", body), Class: "overlap-history", body: body, BlockAfter: -1}
+		// gzip and plain requests mixed; a gzip body that blocks is flushed per line
+		rq.Gzip = r.Chance(2, 3)
+		if rq.Gzip {
+			rq.Eager = true
+		}
+		if role == "held-body" {
+			rq.FlushLines = rq.Gzip
+			rq.BlockAfter = 2 * r.Intn(bytes.Count(body, []byte{'\n'})/2) // 0 or after k complete pairs
+			if r.Chance(1, 4) {
+				rq.BlockAfter++ // between an action line and its document
+			}
+		}
+		h = append(h, histItem{role, rq})
 	}
 	return h
 }
@@ -1191,13 +1295,17 @@ func runHistory(e *env, h []histItem, emit func(record)) bool {
 	}
 	for i, it := range h {
 		switch it.Role {
-		case "held":
+		case "held", "held-body":
 			hold = &holdCtl{entered: make(chan struct{}), release: make(chan struct{})}
 			done = make(chan struct{})
 			heldIdx = i
 			go func(i int, hc *holdCtl) {
 				defer close(done)
-				obs[i] = e.serveHold(h[i].Request, collect, hc)
+				if h[i].Role == "held" {
+					obs[i] = e.serveHold(h[i].Request, collect, hc, nil)
+				} else {
+					obs[i] = e.serveHold(h[i].Request, collect, nil, hc)
+				}
 			}(i, hold)
 			select {
 			case <-hold.entered:
@@ -1233,6 +1341,60 @@ func runHistory(e *env, h []histItem, emit func(record)) bool {
 	return bad
 }
 
+// ---------------------------------------------------------------- broken streams
+
+// a request whose body reader breaks (non-EOF error) after a prefix of a generated body
+func faultRequest(e *env, r *rng.R) (*request, map[string]bool) {
+	g := &gen{r: r, e: e, feat: map[string]bool{}}
+	g.cfg = r.Intn(len(driftCfgs))
+	g.now = baseNow.Add(time.Duration(r.Intn(3600_000)) * time.Millisecond)
+	var body []byte
+	if r.Chance(2, 3) {
+		body = g.plainBody(rng.Pick(r, []string{"big", "small"}))
+	} else {
+		body, _ = g.body("framing")
+	}
+	// cut position classes
+	var nl []int
+	for i, c := range body {
+		if c == '\n' {
+			nl = append(nl, i+1)
+		}
+	}
+	cut, where := len(body), "at-end"
+	switch c := r.Intn(10); {
+	case c == 0:
+		cut, where = 0, "at-start"
+	case c <= 3 && len(nl) >= 2: // right after a complete document line (even number of lines, for plain pairs)
+		j := 2*r.Range(1, len(nl)/2) - 1
+		cut, where = nl[j], "after-doc-line"
+	case c <= 5 && len(nl) >= 1:
+		j := 2 * r.Intn((len(nl)+1)/2)
+		cut, where = nl[j], "after-action-line"
+	case c <= 8 && len(body) > 2:
+		cut = r.Range(1, len(body)-1)
+		where = "inside-line"
+		if body[cut-1] == '\n' {
+			where = "after-some-line"
+		}
+	}
+	prefix := body[:cut]
+	rq := &request{MaxDoc: e.maxDoc, Cfg: g.cfg, NowNs: g.now.UnixNano(), BodyHex: hex.EncodeToString(prefix),
+		BodyText: fmt.Sprintf("%q", prefix), Docs: g.docs, body: prefix, BlockAfter: -1,
+		Fault: rng.Pick(r, []string{"unexpected-eof", "unexpected-eof", "generic", "timeout"})}
+	rq.Gzip = r.Bool()
+	rq.Eager = r.Bool()
+	if r.Chance(1, 3) {
+		rq.Chunk = r.Range(1, 40)
+	}
+	rq.Class = "fault-" + where
+	g.feat["fault-"+rq.Fault] = true
+	if rq.Gzip {
+		g.feat["fault-gzip"] = true
+	}
+	return rq, g.feat
+}
+
 // ---------------------------------------------------------------- worker
 
 type workerSpec struct {
@@ -1252,7 +1414,7 @@ func runOne(e *env, rq *request, feat map[string]bool, emit func(record)) {
 	if o == nil {
 		return
 	}
-	if over, exact, _ := tailExact(rq.body, e.B); over {
+	if over, exact, _ := tailExact(rq.body, e.B); over && rq.Fault == "" {
 		if exact && !rq.Eager {
 			rq.Class = "oversize-tail-exact"
 		} else if !strings.HasPrefix(rq.Class, "time-") && !strings.HasPrefix(rq.Class, "estime-") {
@@ -1295,6 +1457,14 @@ func worker(spec workerSpec, out io.Writer) {
 	r := rng.New(spec.Seed)
 	if spec.MaxDoc == 0 {
 		metaCases(r, spec.N, emit)
+		return
+	}
+	if len(spec.Modes) == 1 && spec.Modes[0] == "fault" {
+		e := newEnv(spec.MaxDoc)
+		for i := 0; i < spec.N; i++ {
+			rq, feat := faultRequest(e, r)
+			runOne(e, rq, feat, emit)
+		}
 		return
 	}
 	if len(spec.Modes) == 1 && spec.Modes[0] == "overlap" {
@@ -1347,7 +1517,8 @@ func plan(tier string, seed uint64) []workerSpec {
 		{64, 450 * k, mix, 0, 0}, {100, 400 * k, mix, 0, 0}, {200, 500 * k, tm, 0, 0}, {1024, 100 * k, mix, 0, 0},
 		{128, 60 * k, sp, 0, 0}, {20, 30 * k, []string{"oversize-tail-exact"}, 0, 0},
 		{0, 200 * k, nil, 0, 0}, // meta codec
-		{64, 40 * k, []string{"overlap"}, 0, 0}, {48, 40 * k, []string{"overlap"}, 0, 1}, {256, 20 * k, []string{"overlap"}, 0, 2},
+		{64, 40 * k, []string{"overlap"}, 0, 0}, {48, 60 * k, []string{"overlap"}, 0, 1}, {256, 20 * k, []string{"overlap"}, 0, 2},
+		{40, 200 * k, []string{"fault"}, 0, 0}, {200, 100 * k, []string{"fault"}, 0, 0},
 	}
 	if tier == "thorough" {
 		specs = append(specs, workerSpec{4096, 300, mix, 0, 0}, workerSpec{33, 300 * k, fr, 0, 0}, workerSpec{257, 200 * k, mix, 0, 0})
